@@ -221,6 +221,33 @@ Section Proofs.
   Proof.
     intros Ha Hb. rewrite (proj1 (vals_merge_spec a b Ha Hb)), (proj1 (merge_spec a b Ha Hb)). reflexivity.
   Qed.
+  (** *** Exclude and Include split an array into two parts that Merge puts back together. *)
+  Lemma lookup_filter (f : Z * V -> bool) t l : ssorted l ->
+    lookup t (filter f l) =
+    match lookup t l with Some v => if f (t, v) then Some v else None | None => None end.
+  Proof.
+    induction l as [|p r IH]; [reflexivity|]. intros [H1 H2]. cbn [filter lookup].
+    destruct (tm p =? t) eqn:E.
+    - assert (Hp : p = (t, snd p)) by (destruct p; unfold tm in E; cbn in *; f_equal; lia).
+      rewrite <- Hp. destruct (f p) eqn:F.
+      + cbn [lookup]. rewrite E. reflexivity.
+      + rewrite IH by exact H2. rewrite (lookup_none t r); [reflexivity|].
+        eapply Forall_impl; [|exact H1]. cbn. intros q Hq. lia.
+    - destruct (f p); [cbn [lookup]; rewrite E|]; apply IH; exact H2.
+  Qed.
+
+  Lemma exclude_include_partition a mn mx : ssorted a ->
+    arr_merge (arr_exclude a mn mx) (arr_include a mn mx) = a /\
+    arr_merge (arr_include a mn mx) (arr_exclude a mn mx) = a.
+  Proof.
+    intro Ha. rewrite exclude_spec, include_spec by auto. unfold exclude_spec_f, include_spec_f.
+    pose proof (ssorted_filter (fun p => negb (in_range mn mx p)) a Ha) as He.
+    pose proof (ssorted_filter (in_range mn mx) a Ha) as Hi.
+    split; (apply ssorted_ext; [apply merge_spec; auto | exact Ha |]);
+      intro t; rewrite merge_lookup by auto; rewrite !lookup_filter by auto;
+      destruct (lookup t a) as [v|]; [|reflexivity| |reflexivity];
+      destruct (in_range mn mx (t, v)); reflexivity.
+  Qed.
 End Proofs.
 
 (** *** The judge's two halves coincide on well-formed cases: whenever the implementation's
